@@ -157,7 +157,11 @@ def analyze_entry(built, name, boxes=None, rnd=None, refine_depth=2, want_paths=
         # loops verified as integer square roots are replaced by their summary (fxai.isqrt); all others are unrolled as usual
         from . import isqrt as _isq
         _isq.prepare(an)
-    res = an.run(P.init_state(an.fn, boxes))
+    init = P.init_state(an.fn, boxes)
+    if getattr(an, "track_mono", False):
+        # direction of every SSA value in parameter 0 (fxai.interp.tag_mono); the other parameters are held fixed
+        init.mono = {pn: (1 if k == 0 else 0) for k, (pn, ty) in enumerate(an.fn.params)}
+    res = an.run(init)
     out_alarms = []
     stats = dict(res.stats)
     stats["paths"] = len(res.paths)
